@@ -108,6 +108,14 @@ class EighthSphere(Shape):
         normal = f.unit_vector(np.asarray(normal))
 
         self.lofts = eighth_sphere_lofts(center_point, radius_point, normal, self.geometry_label, diagonal_angle)
+        # a single eighth: one core loft, then the shell
+        self._remember_points(1)
+
+    def _remember_points(self, first_shell: int) -> None:
+        """Keeps the two points that define the sphere (centre, a point on the surface);
+        which face of a loft they belong to changes when the shape is mirrored (lofts are inverted)"""
+        self._center = self.lofts[0].bottom_face.points[0]
+        self._surface = self.lofts[first_shell].bottom_face.points[1]
 
     ### Chopping
     def chop_axial(self, **kwargs):
@@ -155,11 +163,11 @@ class EighthSphere(Shape):
 
     @property
     def radius_point(self) -> NPPointType:
-        return self.shell[0].bottom_face.points[1].position
+        return self._surface.position
 
     @property
     def center_point(self) -> NPPointType:
-        return self.lofts[0].bottom_face.points[0].position
+        return self._center.position
 
     @property
     def normal(self) -> NPVectorType:
@@ -218,6 +226,7 @@ class Hemisphere(EighthSphere):
             rotated_shell += rotated_eighth[1:]
 
         self.lofts = rotated_core + rotated_shell
+        self._remember_points(self.n_cores)
 
     @property
     def core(self):
